@@ -15,7 +15,8 @@ The standards define their streams by recursion on the block index.  A recursive
 symbolically for a symbolic index, so those functions are symbols too and their DEFINING EQUATIONS (one unfolding step,
 exactly as printed in the standard) are attached as `facts`: every application f(.., n) contributes the ground
 instance of the definition at n (and, through the nested application, at n-1 and n-2).  These facts are definitions
-(conservative: well-founded recursion on n), not assumptions about the code; none of them can raise.
+(conservative: well-founded recursion on n), not assumptions about the code; none of them can raise.  They are written
+with ite(c, a, b) (both branches evaluated, no path split) instead of two implications.
 
 `kind`/`fid` select the PRF: kind 0 = HMAC over hash fid (PBKDF2's default / fast path), kind 1 = caller's prf fid."""
 
@@ -34,44 +35,36 @@ SIG = {
     # T(0) = empty string;  T(n) = HMAC-Hash(PRK, T(n-1) | info | n)      (n a single octet: i2osp(n, 1) is the octet n mod 256,
     # and n <= 255 on the whole domain L <= 255*HashLen)
     'hkdf_T': {'sort': 'bytes', 'uf': True,
-               'facts': ['n <= 0 ==> result == b""',
-                         'n >= 1 ==> result == HMAC(alg, prk, hkdf_T(alg, prk, info, n - 1) + info + i2osp(n, 1))']},
+               'facts': ['result == ite(n <= 0, b"", HMAC(alg, prk, hkdf_T(alg, prk, info, n - 1) + info + i2osp(n, 1)))']},
     # T(1) | T(2) | ... | T(n)
     'hkdf_stream': {'sort': 'bytes', 'uf': True,
-                    'facts': ['n <= 0 ==> result == b""',
-                              'n >= 1 ==> result == hkdf_stream(alg, prk, info, n - 1) + hkdf_T(alg, prk, info, n)']},
+                    'facts': ['result == ite(n <= 0, b"", hkdf_stream(alg, prk, info, n - 1) + hkdf_T(alg, prk, info, n))']},
     'hkdf_extract': 'bytes', 'hkdf_expand': 'bytes', 'hkdf': 'bytes', 'ceil_div': 'int',
     # ---- RFC 8018 5.2 -----------------------------------------------------------------------------------------------
     # U_1 = u1,  U_j = PRF(P, U_{j-1})
     'pbkdf2_U': {'sort': 'bytes', 'uf': True,
-                 'facts': ['j <= 1 ==> result == u1',
-                           'j >= 2 ==> result == prf(kind, fid, p, pbkdf2_U(kind, fid, p, u1, j - 1))']},
+                 'facts': ['result == ite(j <= 1, u1, prf(kind, fid, p, pbkdf2_U(kind, fid, p, u1, j - 1)))']},
     # U_1 \xor U_2 \xor ... \xor U_j
     'pbkdf2_X': {'sort': 'bytes', 'uf': True,
-                 'facts': ['j <= 1 ==> result == u1',
-                           'j >= 2 ==> result == xor(pbkdf2_X(kind, fid, p, u1, j - 1), pbkdf2_U(kind, fid, p, u1, j))']},
+                 'facts': ['result == ite(j <= 1, u1, xor(pbkdf2_X(kind, fid, p, u1, j - 1), pbkdf2_U(kind, fid, p, u1, j)))']},
     # T_1 || T_2 || ... || T_n
     'pbkdf2_blocks': {'sort': 'bytes', 'uf': True,
-                      'facts': ['n <= 0 ==> result == b""',
-                                'n >= 1 ==> result == pbkdf2_blocks(kind, fid, p, s, c, n - 1) + pbkdf2_F(kind, fid, p, s, c, n)']},
+                      'facts': ['result == ite(n <= 0, b"", pbkdf2_blocks(kind, fid, p, s, c, n - 1) + pbkdf2_F(kind, fid, p, s, c, n))']},
     'prf': 'bytes', 'pbkdf2_F': 'bytes', 'pbkdf2': 'bytes',
     # ---- RFC 8018 5.1 -----------------------------------------------------------------------------------------------
     # T_1 = Hash(P || S), T_i = Hash(T_{i-1})
     'pbkdf1_T': {'sort': 'bytes', 'uf': True,
-                 'facts': ['i <= 1 ==> result == H(alg, p + s)',
-                           'i >= 2 ==> result == H(alg, pbkdf1_T(alg, p, s, i - 1))']},
+                 'facts': ['result == ite(i <= 1, H(alg, p + s), H(alg, pbkdf1_T(alg, p, s, i - 1)))']},
     'pbkdf1': 'bytes',
     # ---- SP 800-108r1 4.1 -------------------------------------------------------------------------------------------
     # K(1) || ... || K(n),  K(i) = PRF(K_IN, [i]_2 || Label || 0x00 || Context || [L]_2)   with r = 32-bit counters
     'sp108_stream': {'sort': 'bytes', 'uf': True,
-                     'facts': ['n <= 0 ==> result == b""',
-                               'n >= 1 ==> result == sp108_stream(fid, kin, label, context, lbits, n - 1) + sp108_K(fid, kin, label, context, lbits, n)']},
+                     'facts': ['result == ite(n <= 0, b"", sp108_stream(fid, kin, label, context, lbits, n - 1) + sp108_K(fid, kin, label, context, lbits, n))']},
     'sp108_K': 'bytes',
     # ---- RFC 7914 ---------------------------------------------------------------------------------------------------
     # B'_0 || ... || B'_{n-1},  B'_i = scryptROMix(r, B_i, N),  B_i = b[128*r*i : 128*r*(i+1)]
     'scrypt_mix': {'sort': 'bytes', 'uf': True,
-                   'facts': ['n <= 0 ==> result == b""',
-                             'n >= 1 ==> result == scrypt_mix(b, blen, N, n - 1) + romix(N, b[blen * (n - 1):blen * n])']},
+                   'facts': ['result == ite(n <= 0, b"", scrypt_mix(b, blen, N, n - 1) + romix(N, b[blen * (n - 1):blen * n]))']},
     'is_pow2': 'bool', 'scrypt_params_ok': 'bool', 'scrypt': 'bytes',
 }
 
